@@ -15,9 +15,10 @@ CONFIG = {
                 "searchable fields (also on timestamp and oneof fields) and enum default filters in both spellings; flattened object "
                 "fields incl. objects flattening themselves and each other; recursion through oneofs, arrays and maps; publish / reqres / "
                 "upsert / event topics; entities with shard keys and 0-2 command services, rarely without events; optionally two "
-                "source files; rarely an inline field hoisted under the name of a declared schema; rarely a QueryRequest on a method whose "
-                "response is not list shaped) that the real compiler accepts (candidates it rejects are replaced and counted; packages with an "
-                "enum default filter naming no option are kept as a 'compiler must reject' class), taken through compile -> image (direct and printed-.proto route) -> "
+                "source files; rarely an inline field hoisted under the name of a declared schema; schema names that also exist in the built-in "
+                "packages (Filter, Sort, Actor, ...)) that the real compiler accepts (candidates it rejects are replaced and counted; packages with an "
+                "enum default filter naming no option, or a QueryRequest on a method whose response is not exactly one array of objects, are kept as "
+                "'compiler must reject' classes), taken through compile -> image (direct and printed-.proto route) -> "
                 "structure.APIFromImage -> j5client.APIFromSource -> codec.ProtoToJSON -> export.BuildSwagger + json.Marshal in a "
                 "worker process, each stage under recover + timeout; 6 of 10 ops are kernels: producer path rewrite "
                 "(j5convert.ConvertJ5File), consumer path rewrite and service / method / message naming tests "
@@ -50,8 +51,7 @@ CONFIG = {
         "on generated packages (partial)",
     ],
     "assumptions": [
-        "a package is 'valid' when the real compiler accepts it (recorded exceptions: a QueryRequest method whose response is not list "
-        "shaped, an entity without events); packages the generator cannot produce (imports of other local packages, auth / method "
+        "a package is 'valid' when the real compiler accepts it (recorded exception: an entity without events); packages the generator cannot produce (imports of other local packages, auth / method "
         "options, hand-written .proto files in the bundle, exported `any` member objects, entity summaries / query options, flatten on "
         "inline objects) are not covered",
         "nothing below j5.state.v1 Cause carries list rules (the driver leaves that subtree out of the built-in EventMetadata node)",
